@@ -172,6 +172,8 @@ type gstate struct {
 	wake    chan struct{}
 	done    bool
 	waiting bool
+	ready   func() bool // parked on a container lock (G2 replay): runnable iff ready()
+	goid    uint64
 }
 
 var (
@@ -225,6 +227,9 @@ func runnable(includeCur bool) []*gstate {
 		if g.done || g.waiting {
 			continue
 		}
+		if g != cur && g.ready != nil && !g.ready() {
+			continue
+		}
 		if g == cur && !includeCur {
 			continue
 		}
@@ -272,6 +277,7 @@ func Go(name string, f func()) {
 	gs = append(gs, g)
 	go func() {
 		<-g.wake
+		g.goid = goid()
 		defer func() {
 			g.done = true
 			c := runnable(false)
@@ -356,6 +362,121 @@ func Quiesce() {
 }
 
 func Preempt(on bool)  {}
+
+// ---- G2: pre-emption at synchronisation points of the container. Under the VM
+// vrt.G2(n) allows n involuntary context switches, each placed by the solver in
+// front of any mutex acquisition / atomic / sync.Map operation executed by godi's
+// code. Natively the same points exist only in a replay runner built with
+// `-tags verifhook -overlay <instrumented godi sources>` (gosym instrument):
+// there every such operation first calls SyncPoint / LockPoint / RLockPoint below,
+// which follow the recorded choices with the baton. In an ordinary build nothing
+// calls them and G2 only records the budget.
+
+var g2budget int
+
+func G2(n int) {
+	initSched()
+	g2budget = n
+	if gs[0].goid == 0 {
+		gs[0].goid = goid()
+	}
+}
+
+func goid() uint64 {
+	var buf [64]byte
+	n := runtime.Stack(buf[:], false)
+	// "goroutine 123 [running]:"
+	var id uint64
+	for _, c := range buf[len("goroutine "):n] {
+		if c < '0' || c > '9' {
+			break
+		}
+		id = id*10 + uint64(c-'0')
+	}
+	return id
+}
+
+// managed reports whether the calling goroutine is the harness goroutine that
+// holds the baton (container-spawned goroutines are never scheduled by it).
+func managed() bool {
+	return baton && cur != nil && cur.goid != 0 && cur.goid == goid()
+}
+
+// SyncPoint is called by the instrumented container in front of an atomic /
+// sync.Map operation.
+func SyncPoint() {
+	if g2budget <= 0 || !managed() {
+		return
+	}
+	c := runnable(true)
+	if len(c) < 2 {
+		return
+	}
+	next := choose(c)
+	if next != cur {
+		g2budget--
+		switchTo(next)
+	}
+}
+
+// LockPoint replaces m.Lock() in the instrumented container: a scheduling point,
+// then an acquisition that parks with the baton instead of blocking the thread.
+func LockPoint(m interface {
+	Lock()
+	TryLock() bool
+	Unlock()
+}) {
+	if !baton || !managed() {
+		m.Lock()
+		return
+	}
+	SyncPoint()
+	acquire(m.TryLock, func() bool {
+		if m.TryLock() {
+			m.Unlock()
+			return true
+		}
+		return false
+	}, m.Lock)
+}
+
+func RLockPoint(m interface {
+	RLock()
+	TryRLock() bool
+	RUnlock()
+}) {
+	if !baton || !managed() {
+		m.RLock()
+		return
+	}
+	SyncPoint()
+	acquire(m.TryRLock, func() bool {
+		if m.TryRLock() {
+			m.RUnlock()
+			return true
+		}
+		return false
+	}, m.RLock)
+}
+
+func acquire(try func() bool, probe func() bool, block func()) {
+	me := cur
+	for !try() {
+		me.ready = probe
+		c := runnable(false)
+		if len(c) == 0 {
+			// held by a goroutine the baton does not schedule: wait for real
+			me.ready = nil
+			block()
+			return
+		}
+		next := choose(c)
+		cur = next
+		next.wake <- struct{}{}
+		<-me.wake
+		me.ready = nil
+	}
+}
 func SetMapOrder(k int) {}
 
 func Goroutines() int {
